@@ -233,6 +233,16 @@ impl Drop for DropCounter {
   }
 }
 
+/// A zero-sized `needs_drop` type counted by the same counter: the arena never stores such a value (`write`
+/// consumes and drops it at once), so the drop of its handle must not drop anything again.
+pub struct ZstDrop;
+
+impl Drop for ZstDrop {
+  fn drop(&mut self) {
+    DROPS.fetch_add(1, Ordering::SeqCst);
+  }
+}
+
 // ---------------------------------------------------------------------------------------------
 // Panic hook and watchdog
 // ---------------------------------------------------------------------------------------------
@@ -461,6 +471,10 @@ pub enum HKind {
 impl HKind {
   pub fn is_bytes(self) -> bool {
     matches!(self, HKind::BytesRef | HKind::BytesOwn)
+  }
+  /// embeds a clone of the arena (`BytesMut`, `Owned<T>`)
+  pub fn is_owned(self) -> bool {
+    !self.is_borrowed()
   }
   /// borrows the arena value it was allocated from
   pub fn is_borrowed(self) -> bool {
@@ -946,6 +960,32 @@ impl<A: Flavour> Case<A> {
         let kind = if owned { HKind::TOwn } else { HKind::TRef };
         match dispatch(al, sz, VAllocT { a, owned })? {
           Ok(hd) => self.admit(h, hd, kind, Some(al), true),
+          Err(e) => format!("r={}", err_name(&e)),
+        }
+      }
+      "alloc_z" | "alloc_z_owned" => {
+        argc(2)?;
+        let h: u32 = parse(t[1])?;
+        if self.handles.contains_key(&h) {
+          return None;
+        }
+        let owned = t[0].ends_with("_owned");
+        let kind = if owned { HKind::TOwn } else { HKind::TRef };
+        let r: Result<Handle<A>, Error> = unsafe {
+          if owned {
+            a.alloc_owned::<ZstDrop>().map(|mut o| {
+              o.write(ZstDrop);
+              Handle::Obj(Box::new(o))
+            })
+          } else {
+            a.alloc::<ZstDrop>().map(|mut r| {
+              r.write(ZstDrop);
+              Handle::Obj(Box::new(r))
+            })
+          }
+        };
+        match r {
+          Ok(hd) => self.admit(h, hd, kind, Some(1), true),
           Err(e) => format!("r={}", err_name(&e)),
         }
       }
@@ -1623,11 +1663,38 @@ trait CaseInner: CaseApi {
   /// `doff= ro= fk= mv=` and `<STATE>` of a reopened arena; `None` = they cannot be observed
   /// (the case is dead from then on)
   fn reopen_obs(&mut self) -> Option<(String, String)>;
+  /// End of the arena with the OWNED handle `h` as the last owner: every other handle is detached and dropped, every
+  /// arena value is dropped, and only then `h` is dropped WITHOUT being detached (it releases its extent through the
+  /// clone it embeds, whose drop then releases the memory). `false` = no such owned handle (nothing done).
+  fn close_last(&mut self, h: u32) -> bool;
 }
 
 impl<A: Flavour> CaseInner for Case<A> {
   fn disown_file(&mut self) -> Option<PathBuf> {
     self.file.take()
+  }
+
+  fn close_last(&mut self, h: u32) -> bool {
+    match self.handles.get(&h) {
+      Some(s) if matches!(s.kind, HKind::BytesOwn | HKind::TOwn | HKind::DOwn) => {}
+      _ => return false,
+    }
+    let last = self.handles.remove(&h).expect("checked");
+    let _ = catch_unwind(AssertUnwindSafe(|| {
+      for (_, mut s) in self.handles.drain() {
+        s.detach();
+        drop(s);
+      }
+      for (_, p) in std::mem::take(&mut self.arenas) {
+        drop(unsafe { Box::from_raw(p) });
+      }
+      for p in self.graveyard.drain(..) {
+        drop(unsafe { Box::from_raw(p as *mut std::mem::ManuallyDrop<A>) });
+      }
+      drop(last);
+    }));
+    self.dead = true;
+    true
   }
 
   fn reopen_obs(&mut self) -> Option<(String, String)> {
@@ -1707,9 +1774,9 @@ impl<A: Flavour> Case<A> {
 }
 
 /// First tokens of the lines that need an arena (answered `r=closed` while the case is closed).
-const ARENA_OPS: [&str; 38] = [
+const ARENA_OPS: [&str; 40] = [
   "alloc_bytes", "alloc_bytes_owned", "alloc_aligned", "alloc_aligned_owned", "alloc_t", "alloc_t_owned",
-  "alloc_d", "alloc_d_owned", "fill", "drop", "detach", "dealloc", "discard_freelist", "set_minseg",
+  "alloc_d", "alloc_d_owned", "alloc_z", "alloc_z_owned", "fill", "drop", "detach", "dealloc", "discard_freelist", "set_minseg",
   "inc_discarded", "rewind", "clear", "truncate", "clone", "drop_arena", "rd", "rd_var", "slices",
   "checksum", "info", "wres", "put", "get", "put_var", "get_var", "put_slice", "set_len", "align_to",
   "put_aligned", "putT", "flush", "remove_on_drop", "close",
@@ -1804,6 +1871,19 @@ impl Session {
         self.case = None;
         format!("r=ok um={} {}", seq_hook::unmounts() - before, sig())
       }
+      "close_last" => {
+        argc(2)?;
+        if closed {
+          return Some("r=closed".to_string());
+        }
+        let h: u32 = t[1].parse().ok()?;
+        let before = seq_hook::unmounts();
+        if !self.case.as_mut().is_some_and(|c| c.close_last(h)) {
+          return Some("r=nohandle".to_string());
+        }
+        self.case = None;
+        format!("r=ok um={} {}", seq_hook::unmounts() - before, sig())
+      }
       "reopen" => {
         if !closed {
           return None;
@@ -1888,7 +1968,7 @@ impl CaseApi for Session {
   fn exec(&mut self, line: &str) -> String {
     let t: Vec<&str> = line.split(' ').collect();
     match t[0] {
-      "close" | "reopen" | "mutate_file" | "truncate_file" | "random_file" | "delete_file" | "filehash" | "crashcheck" => {
+      "close" | "reopen" | "mutate_file" | "truncate_file" | "random_file" | "delete_file" | "filehash" | "crashcheck" | "close_last" => {
         self.file_op(&t).unwrap_or_else(|| "bad-op".to_string())
       }
       op => match &mut self.case {
